@@ -604,6 +604,12 @@ def signed_magnitude(repo: Repo) -> RuleRun:
                 continue
             lhs, rhs = n.left, n.comparators[0]
             big, small = (lhs, rhs) if isinstance(n.ops[0], (ast.Gt, ast.GtE)) else (rhs, lhs)
+            # the difference form of the same guard:  bound - x < tol   is   x > bound - tol
+            zero_or_tol = lambda e: _is_tol(e) or (isinstance(e, ast.Constant) and e.value == 0)  # noqa: E731
+            if zero_or_tol(big) and isinstance(small, ast.BinOp) and isinstance(small.op, ast.Sub):
+                big, small = small.right, small.left  # (A - x) < T  ->  x  vs bound A
+            elif zero_or_tol(small) and isinstance(big, ast.BinOp) and isinstance(big.op, ast.Sub):
+                big, small = big.left, big.right  # (x - A) > T  ->  x  vs bound A
             env = SignEnv(repo, fn)
             # the bound must be a computed geometric magnitude (norm-derived), not a literal
             if isinstance(small, ast.Constant) or not env.nonneg(small) or _is_tol(small):
